@@ -10,7 +10,7 @@ from geolib import Gen, Obj, call_impl
 from proto import ET, dec_tens, proj_close, proj_close_nn, run_driver
 
 ID = "C10"
-LEAN_FILES = ["Geo/Props/C10.lean", "Geo/Props/C10b.lean"]
+LEAN_FILES = ["Geo/Props/C10.lean", "Geo/Props/C10b.lean", "Geo/Props/C10c.lean"]
 RULE = ("2-D lines (vertical, horizontal, through the origin, b=0, c=0, generic) and 3-D planes / lines x points on and off: project and "
         "mirror compared with the exact Cartesian foot / mirror image (S-layer), perpendicular / parallel checked for incidence with the "
         "point and for the Cartesian direction; involution and midpoint; predicates is_perpendicular / is_parallel / is_cocircular / "
@@ -535,7 +535,60 @@ def complex_line3_stream(ctx, n):
                          r[1:3], replay=[desc])
 
 
+def constructions_model_stream(ctx, n):
+    """the executable model of Geo/Constructions.lean (the compositions of cross products that C10c's theorems are about) against
+    the live methods: parallel, perpendicular (point on / off the line), project, mirror in the plane; project onto a plane of
+    space — lines / points of any homogeneous scale, compared projectively"""
+    import geometer as g
+    rng = ctx.rng
+    reqs, todo = [], []
+    for k in range(n):
+        sc1, sc2 = rng.choice([1, 1, 2, -1, -3, Fraction(1, 2)]), rng.choice([1, 1, 2, -1, Fraction(1, 4)])
+        if k % 4 < 3:
+            l = [Fraction(rng.randint(-4, 4)) for _ in range(3)]
+            if not (l[0] or l[1]):
+                continue
+            if k % 4 == 1:
+                # a point ON the line (exactly): p = foot of a random point, scaled to integers
+                q = [Fraction(rng.randint(-4, 4)), Fraction(rng.randint(-4, 4))]
+                t = (l[0] * q[0] + l[1] * q[1] + l[2]) / (l[0] ** 2 + l[1] ** 2)
+                p = [q[0] - t * l[0], q[1] - t * l[1], Fraction(1)]
+            else:
+                p = [Fraction(rng.randint(-5, 5)), Fraction(rng.randint(-5, 5)), Fraction(1)]
+            l, p = [sc1 * x for x in l], [sc2 * x for x in p]
+            on = (l[0] * p[0] + l[1] * p[1] + l[2] * p[2]) == 0
+            L, P = g.Line(np.array([float(x) for x in l])), g.Point(np.array([float(x) for x in p]))
+            for op, f in (("m.parallel2", lambda L=L, P=P: L.parallel(P)), ("m.perpon2" if on else "m.perpoff2", lambda L=L, P=P: L.perpendicular(P)),
+                          ("m.project2", lambda L=L, P=P: L.project(P)), ("m.mirror2", lambda L=L, P=P: L.mirror(P))):
+                if op == "m.mirror2" and on:
+                    continue
+                reqs.append(f"{op} {vt(l)} {vt(p)}")
+                todo.append((op, f, f"{op[2:]} line={[str(x) for x in l]} point={[str(x) for x in p]}"))
+        else:
+            e = [Fraction(rng.randint(-3, 3)) for _ in range(4)]
+            if not any(e[:3]):
+                continue
+            p = [Fraction(rng.randint(-4, 4)) for _ in range(3)] + [Fraction(1)]
+            e, p = [sc1 * x for x in e], [sc2 * x for x in p]
+            E, P = g.Plane(np.array([float(x) for x in e])), g.Point(np.array([float(x) for x in p]))
+            reqs.append(f"m.planefoot {vt(e)} {vt(p)}")
+            todo.append(("m.planefoot", lambda E=E, P=P: E.project(P), f"planefoot plane={[str(x) for x in e]} point={[str(x) for x in p]}"))
+    answers = run_driver(reqs)
+    for (op, f, desc), ans in zip(todo, answers):
+        ctx.case(desc)
+        ctx.count("model:" + op[2:])
+        a = ans.split(" ")
+        r = call_impl(f)
+        if a[0] != "ok":
+            ctx.disagree(f"C10:model:{op[2:]}:driver", desc, ans, r[1:3], replay=[desc])
+            continue
+        exp = dec_tens(a[1])
+        if r[0] != "ok" or not proj_close(exp, np.asarray(r[1].array), rtol=1e-9):
+            ctx.disagree(f"C10:model:{op[2:]}", desc, a[1], r[1:3] if r[0] != "ok" else np.asarray(r[1].array).tolist(), replay=[desc])
+
+
 def correspondence(ctx):
+    constructions_model_stream(ctx, ctx.budget(120, 1500))
     import colllib
     colllib.run(ctx, ctx.budget(40, 400), prefix="C10", only={"angle_bisectors3"}, patterns=["k", "1", "k1", "1k"])
     complex_line3_stream(ctx, ctx.budget(40, 400))
